@@ -115,31 +115,145 @@ def gen_split(rng):
     return rng.choice(['n', 'n', 'b', 'f', 'h', 'm1', 'm%d' % rng.randint(2, 6), 'e', 'e'])
 
 
-def gen_case(rng, tier, heavy):
-    cap = 65536
+def unhx(h):
+    return b'' if h in ('-', 'e') else bytes.fromhex(h)
+
+
+def parse_fields_hex(fs):
+    if fs in ('-', 'n'):
+        return []
+    return [(unhx(f.split('=')[0]), unhx(f.split('=')[1])) for f in fs.split(';')]
+
+
+def section_size(fields):
+    """RFC 9114 4.2.2"""
+    return sum(len(n) + len(v) + 32 for n, v in fields)
+
+
+def request_section(m, s, a, p, proto, fields):
+    """the field lines Header::request + HeaderIter emit (s, a, p: hex or '-')"""
+    out = [(b':method', m)]
+    plain_connect = (m == b'CONNECT' and proto is None)
+    if not plain_connect:
+        out.append((b':scheme', unhx(s) if s != '-' else b'https'))
+    if a != '-':
+        out.append((b':authority', unhx(a)))
+    if not plain_connect:
+        out.append((b':path', unhx(p) if p != '-' and unhx(p) else b'/'))
+    if m == b'CONNECT' and proto is not None:
+        out.append((b':protocol', PROTOS[proto]))
+    return out + list(fields)
+
+
+PROTOS = {'wt': b'webtransport', 'udp': b'connect-udp', 'ip': b'connect-ip', 'ws': b'websocket'}
+
+
+def gen_exchange(rng, cap, path_prefix=None):
+    """(msg string, resp string, request section size incl. trailers max, response section size incl. trailers max, proto)"""
+    m, s, a, p, fields = gen_request_head(rng)
+    proto = None
+    if path_prefix is not None:
+        # the server routes on the first path segment; keep the target form, replace the path
+        if m == b'CONNECT' and s == '-':
+            m = b'POST'
+        tail = rng.choice([x for x in PATHS if x.startswith(b'/') or x.startswith(b'?') or x == b''])
+        if p != '-' or s == '-' and a == '-':
+            p = hx(path_prefix + tail)
+        else:
+            # authority form has no path: use the absolute form instead
+            s, p = hx(b'https'), hx(path_prefix + tail)
+        if p == hx(b'*'):
+            p = hx(path_prefix)
+    elif m == b'CONNECT' and s != '-' and rng.random() < 0.7:
+        proto = rng.choice(sorted(PROTOS))
+    elif s != '-' and rng.random() < 0.04:
+        m, proto = b'CONNECT', rng.choice(sorted(PROTOS))
+    qt, rt = gen_trailers(rng), gen_trailers(rng)
+    rfields = gen_fields(rng, 10)
+    status = rng.choice(STATUSES + [rng.randint(100, 999)])
+    msg = '%s,%s,%s,%s,%s,%s,%s' % (hx(m), s, a, p, show_fields(fields), gen_body(rng, cap), qt)
+    resp = '%d,%s,%s,%s' % (status, show_fields(rfields), gen_body(rng, cap), rt)
+    qsize = max(section_size(request_section(m, s, a, p, proto, fields)), section_size(parse_fields_hex(qt)))
+    rsize = max(section_size([(b':status', b'200')] + rfields), section_size(parse_fields_hex(rt)))
+    return msg, resp, qsize, rsize, proto
+
+
+def gen_pacing(rng, heavy):
     wire = rng.choice(['1', 'f2', 'f3', 'f7', 'r4', 'r16', 'r64', 'r1500', 'r20000', 'big', 'big'])
     budget = rng.choice(['u', 'u', 'u', '1', '2', '3', '5', '8', 'r4', 'r16', 'r1200', 'r30000'])
     slow = wire in ('1', 'f2', 'f3', 'f7', 'r4') or budget in ('1', '2', '3', '5', '8', 'r4')
-    if slow and not heavy:
+    if heavy:
+        cap = 65536
+    elif slow:
         cap = rng.choice([0, 10, 200, 3000])
-    elif not heavy:
+    else:
         cap = rng.choice([0, 100, 5000, 65536])
-    m, s, a, p, fields = gen_request_head(rng)
-    msg = '%s,%s,%s,%s,%s,%s,%s' % (hx(m), s, a, p, show_fields(fields), gen_body(rng, cap), gen_trailers(rng))
-    resp = '%d,%s,%s,%s' % (rng.choice(STATUSES + [rng.randint(100, 999)]), show_fields(gen_fields(rng, 10)),
-                            gen_body(rng, cap), gen_trailers(rng))
+    return wire, budget, cap
+
+
+def gen_case(rng, tier, heavy):
+    wire, budget, cap = gen_pacing(rng, heavy)
+    msg, resp, qsize, rsize, proto = gen_exchange(rng, cap)
     sched = rng.choice('uwx') + str(rng.randint(0, 10 ** 6))
     line = 'e2e msg=%s resp=%s wire=%s budget=%s sched=%s split=%s,%s' % (msg, resp, wire, budget, sched,
                                                                           gen_split(rng), gen_split(rng))
     if rng.random() < 0.12:
         line += ' grease=1'
+    if proto is not None:
+        line += ' proto=' + proto
+    if rng.random() < 0.5:
+        # the transport hands h3 non-contiguous buffers, the application hands send_data a chained one
+        line += ' seg=%d' % rng.randint(1, 10 ** 6)
+    if rng.random() < 0.15:
+        ifields = gen_fields(rng, 4)
+        rsize = max(rsize, section_size([(b':status', b'103')] + ifields))
+        line += ' interim=%d,%s' % (rng.choice([100, 102, 103, 103, 199]), show_fields(ifields))
+    if rng.random() < 0.25:
+        # non-default limits on the field-section size each side announces and enforces: at or above what is sent
+        d = lambda: rng.choice([0, 0, 1, 57, 4096])
+        line += ' lim=%s,%s' % (rng.choice(['d', str(rsize + d()), str(rsize + d())]),
+                                rng.choice(['d', str(qsize + d()), str(qsize + d())]))
+    return line
+
+
+def gen_heavy(rng):
+    """a long body (20000..65536 bytes) under byte-wise delivery and/or byte-wise write budgets"""
+    wire, budget = rng.choice([('1', 'u'), ('f2', 'u'), ('f3', '2'), ('r4', 'u'), ('big', '1'), ('big', '3'), ('1', '1'),
+                               ('r64', '2'), ('f7', 'r4')])
+    big = 'g%ds%d' % (rng.choice([20000, 40000, 65536, 65536]), rng.randint(0, 999999))
+    small = rng.choice(['n', 'g%ds%d' % (rng.randint(1, 300), rng.randint(0, 999999))])
+    qb, rb = (big, small) if rng.random() < 0.5 else (small, big)
+    line = ('e2e msg=%s,%s,%s,%s,-,%s,%s resp=200,-,%s,%s wire=%s budget=%s sched=%s split=%s,%s' %
+            (hx(b'POST'), hx(b'https'), hx(b'h.example'), hx(b'/heavy'), qb, gen_trailers(rng), rb, gen_trailers(rng),
+             wire, budget, rng.choice('uwx') + str(rng.randint(0, 10 ** 6)), gen_split(rng), gen_split(rng)))
+    if rng.random() < 0.5:
+        line += ' seg=%d' % rng.randint(1, 10 ** 6)
+    return line
+
+
+def gen_multi(rng):
+    """several exchanges on one connection, through original / cloned / dropped SendRequest handles"""
+    mode = rng.choice(['seq', 'seq', 'ovl', 'ovl', 'cd', 'cd', 'cb', 'dh'])
+    n = 1 if mode == 'dh' else rng.choice([2, 3, 3])
+    wire, budget, cap = gen_pacing(rng, False)
+    cap = min(cap, 3000)
+    xs = []
+    for k in range(n):
+        msg, resp, _, _, _ = gen_exchange(rng, cap, path_prefix=b'/%d' % k)
+        xs.append('x%d=%s|%s' % (k, msg, resp))
+    line = 'multi mode=%s n=%d %s wire=%s budget=%s sched=%s' % (mode, n, ' '.join(xs), wire, budget,
+                                                                 rng.choice('uwx') + str(rng.randint(0, 10 ** 6)))
+    if rng.random() < 0.12:
+        line += ' grease=1'
+    if rng.random() < 0.5:
+        line += ' seg=%d' % rng.randint(1, 10 ** 6)
     return line
 
 
 class P(Property):
     id = 'C01'
     gen_modules = ['gen_varint', 'gen_codes', 'gen_headers', 'gen_datagram', 'gen_writers', 'gen_frames', 'gen_reqstream',
-                   'gen_static', 'gen_qstateless', 'gen_prefixint', 'gen_huffman', 'gen_huffman_enc', 'gen_split']
+                   'gen_static', 'gen_qstateless', 'gen_prefixint', 'gen_huffman', 'gen_huffman_enc', 'gen_split', 'gen_buflist']
     properties_v = 'Properties/C01.v'
     model_targets = ['Model/EndToEndH3.vo', 'Model/EndToEndRef.vo', 'Spec/EndToEndSpec.vo']
     extract_v = 'Extract/ExtractC01.v'
@@ -153,7 +267,11 @@ class P(Property):
             '(uniform, weighted, strict-priority over client tasks, server tasks, deliveries per direction and stream, '
             'grants) x request streams whole or split into halves driven by separate tasks, the split point chosen per side '
             '(before any call, after the send side finished, after the head, after k recv_data calls, after end-of-body '
-            'before recv_trailers) x grease on/off. non-trivial = distinct cases whose exchange completed '
+            'before recv_trailers) x grease on/off x contiguous / multi-segment transport and send buffers x default / '
+            'exact / larger field-section limits x optional 1xx interim response x extended CONNECT (:protocol); family multi: '
+            '1..3 exchanges on one connection through the original, cloned and early-dropped SendRequest handles, sequential '
+            'and overlapping, run to quiescence (a driver or accept loop that ended is an error); 6 heavy cases per run '
+            '(20..64 KiB bodies under byte-wise wire/budget) drawn afresh on every run. non-trivial = distinct cases whose exchange completed '
             'and carried at least one field, body byte or trailer in some direction')
     partial_note = ('C01_request_fidelity / C01_response_fidelity are closed and every layer of their pipeline is the model of h3 code '
                     'owned by another property (C12 header mapping, C11 stateless QPACK, C14 writers, C02+C03 FrameStream and '
@@ -174,9 +292,16 @@ class P(Property):
 
     def cases(self, tier, rng):
         out = []
-        n = 1600 if tier == 'quick' else 120000
+        n = 1000 if tier == 'quick' else 100000
         for i in range(n):
             out.append(gen_case(rng, tier, heavy=(tier != 'quick' and i % 50 == 0)))
+        for i in range(220 if tier == 'quick' else 20000):
+            out.append(gen_multi(rng))
+        # a few heavy cases that differ from run to run (every case line is self-contained, so a failure replays)
+        import os
+        hr = __import__('random').Random(int.from_bytes(os.urandom(8), 'big'))
+        for i in range(6 if tier == 'quick' else 300):
+            out.append(gen_heavy(hr))
         return out
 
     def canon(self, case, out):
@@ -203,6 +328,8 @@ class P(Property):
 
     def family(self, case):
         w = case.split()
+        if w and w[0] == 'multi':
+            return 'multi.' + (w[1][5:] if len(w) > 1 else '?')
         try:
             return 'e2e.%s.%s' % ('whole' if w[6] in ('split=0', 'split=n,n') else 'split',
                                   'paced' if (w[3] != 'wire=big' or w[4] != 'budget=u') else 'free')
@@ -221,6 +348,8 @@ class P(Property):
 
         if len(w) > 7:
             out.append(' '.join(w[:7]))
+            for k in range(7, len(w)):
+                out.append(' '.join(w[:k] + w[k + 1:]))
         put(6, 'split=n,n')
         if ',' in w[6]:
             c, sv = w[6][len('split='):].split(',', 1)
